@@ -211,6 +211,7 @@ type Layout struct {
 	OpenGap     int    `json:"open_gap"`     // between the annotation opener and its body: 0 blank, 1 nothing, 2 TAB, 3 two blanks, 4 blank+TAB
 	SpreadHead  bool   `json:"spread_head"`  // with Spread: the first rule stays on the line of the opening brace, a line break follows every comma
 	GapTab      bool   `json:"gap_tab"`      // a TAB instead of blanks between the element and its annotation
+	EmptyPad    bool   `json:"empty_pad"`    // a blank inside empty containers: `[ ]`, `{ }`
 }
 
 // DefaultLayout is the plain style used by the repository's own examples.
@@ -239,6 +240,7 @@ func RandLayout(rng *rand.Rand) Layout {
 		OpenGap:     []int{0, 0, 0, 1, 2, 3, 4}[rng.IntN(7)],
 		SpreadHead:  rng.IntN(3) == 0,
 		GapTab:      rng.IntN(6) == 0,
+		EmptyPad:    rng.IntN(4) == 0,
 	}
 	return l
 }
@@ -457,6 +459,9 @@ func (p *printer) element(n *Node, level int, tail string, ownLine bool) {
 			open, close = "[", "]"
 		}
 		if len(n.Children) == 0 {
+			if p.l.EmptyPad {
+				open += " "
+			}
 			p.sb.WriteString(open + close + tail)
 			p.annotation(n, level)
 			return
